@@ -7,7 +7,7 @@ For each seeded change: a scratch worktree of /repo (never /repo itself), `git a
 command of the check of the property the change breaks (with --all-checks: all twenty), pointed at the scratch copy
 through the VERIF_ALT_* variables of `check` (proof side skipped: theorems do not depend on the repository).
 Prints one line per change and a summary; exit 1 if a change that was caught when it was recorded is no longer caught.
-The five behaviour-preserving refactorings (seeded/refactor-*) are run through all twenty checks and must stay quiet.
+The behaviour-preserving refactorings (seeded/refactor-*) and the visible-but-harmless changes (seeded/visible-*) are run through all twenty checks and must stay quiet.
 Scratch: $SELFTEST_WORK (default /tmp/ppp-selftest), removed at the end.
 """
 import json
@@ -52,7 +52,7 @@ def main(argv):
         for name in names:
             d = os.path.join(seeded, name)
             meta = json.load(open(os.path.join(d, "meta.json"))) if os.path.exists(os.path.join(d, "meta.json")) else {}
-            harmless = name.startswith("refactor")
+            harmless = name.startswith(("refactor", "visible"))
             target = meta.get("breaks_property") or re.match(r"(C\d\d)", name).group(1) if not harmless else None
             sh(["git", "-C", repo, "checkout", "--", "."])
             sh(["git", "-C", repo, "clean", "-fdq"])
@@ -84,9 +84,9 @@ def main(argv):
         sh(["git", "-C", "/repo", "worktree", "remove", "--force", repo])
         sh(["git", "-C", "/repo", "worktree", "prune"])
         shutil.rmtree(WORK, ignore_errors=True)
-    print("selftest: %d seeded changes, %d no longer caught by their own check%s; %d refactorings, %d noisy%s" % (
-        sum(1 for n in names if not n.startswith("refactor")), len(lost), (" (" + ", ".join(lost) + ")") if lost else "",
-        sum(1 for n in names if n.startswith("refactor")), len(noisy), (" (" + ", ".join(noisy) + ")") if noisy else ""))
+    print("selftest: %d seeded changes, %d no longer caught by their own check%s; %d harmless changes, %d noisy%s" % (
+        sum(1 for n in names if not n.startswith(("refactor", "visible"))), len(lost), (" (" + ", ".join(lost) + ")") if lost else "",
+        sum(1 for n in names if n.startswith(("refactor", "visible"))), len(noisy), (" (" + ", ".join(noisy) + ")") if noisy else ""))
     return 1 if lost or noisy else 0
 
 
